@@ -9,7 +9,8 @@ from .decks import WORLD_SURF
 
 FAMILIES = ['empty-filler-shared', 'empty-filler-once', 'lattice-complement',
             'dedup-opposite', 'dedup-many', 'unused-surfaces',
-            'all-cells-empty-but-one', 'union-of-empties-filler']
+            'all-cells-empty-but-one', 'union-of-empties-filler',
+            'helper-plane-collision']
 
 
 def build(rng, family):
@@ -74,6 +75,31 @@ def build(rng, family):
                  M.AND(M.S(1), M.OR(M.AND(M.S(3), M.S(-5)), M.S(-4)))]
         if family == 'dedup-many':
             geoms += [M.AND(M.S(2), M.S(5)), M.AND(M.S(-1), M.S(-5), M.S(3))]
+        for num, geom in enumerate(geoms, start=1):
+            mat, rho = bld.material()
+            deck.cells.append(M.Cell(num, mat=mat, rho=rho,
+                                     geom=M.AND(geom, M.S(-WORLD_SURF)),
+                                     imp={'n': '1'}))
+        deck.surfs.append(M.Surf(WORLD_SURF, 'so', [deck.world]))
+        deck.cells.append(M.Cell(900, mat=0, geom=M.S(WORLD_SURF),
+                                 imp={'n': '0'}))
+        deck.tags.add(f'hostile.{family}')
+        return deck
+    elif family == 'helper-plane-collision':
+        # user surfaces that coincide with the converter's auxiliary planes
+        # for unions (x = 1 and x = -1), together with duplicate cards used
+        # with opposite signs in the main branch of a union
+        pos = rnd(rng, 2, 4)
+        deck.surfs += [M.Surf(1, 'px', [1]), M.Surf(2, 'py', [pos]),
+                       M.Surf(3, 'py', [pos]), M.Surf(4, 'pz', [0.5]),
+                       M.Surf(5, 'so', [5.0]), M.Surf(6, 'px', [-1])]
+        geoms = [M.OR(M.AND(M.S(2), M.S(-3), M.S(4)), M.S(-5)),
+                 M.AND(M.S(5), M.S(1), M.OR(M.S(-2), M.S(4))),
+                 M.AND(M.S(5), M.S(-1), M.S(6)),
+                 M.AND(M.S(5), M.S(-6), M.OR(M.AND(M.S(3), M.S(-2)),
+                                               M.AND(M.S(-4), M.S(2))))]
+        if rng.random() < 0.5:
+            geoms = geoms[::-1]
         for num, geom in enumerate(geoms, start=1):
             mat, rho = bld.material()
             deck.cells.append(M.Cell(num, mat=mat, rho=rho,
